@@ -1,7 +1,7 @@
 """C02 — parallel evaluation equals serial evaluation under every schedule."""
 from . import core, eng, gen, engcheck
 
-THEOREMS = []
+THEOREMS = ["runPar_eq_leastModel", "par_eq_serial", "par_schedule_independent"]
 TRUSTED = ["Lean 4.33.0 kernel", "axioms: propext, Classical.choice, Quot.sound only (audited per theorem)",
            "statement: Props/C02.lean (the parallel iteration as an arbitrary interleaving of atomic head updates over frozen total/delta; "
            "every schedule computes the least model, hence equals the serial result)",
